@@ -758,7 +758,16 @@ class Engine:
 
     # ---------------------------------------------------------------- structured interpretation
     def run_body(self, tree, st):
+        self._body_tree = tree
         return self.block([tree], [st])
+
+    def _label_tail(self, label, from_ln):
+        t = getattr(self, '_body_tree', None)
+        top = (t.get('body') or []) if isinstance(t, dict) and t.get('k') == 'CompoundStmt' else []
+        for i, y in enumerate(top):
+            if isinstance(y, dict) and y.get('k') == 'LabelStmt' and y.get('label') == label and (y.get('ln') or 0) > (from_ln or 0):
+                return top[i:]
+        return None
 
     def block(self, stmts, states):
         """run a statement list over a set of states; returns (fallthrough states, exits) where exits are
@@ -870,6 +879,12 @@ class Engine:
             if k == 'LabelStmt':
                 return self.stmt(s.get('sub'), st)
             if k == 'GotoStmt':
+                # a forward jump to a label of the function's outermost block (the single-exit idiom `goto finish;`): continue with
+                # the statements from the label on; whatever they return is this path's return
+                tail = self._label_tail(s.get('label'), s.get('ln'))
+                if tail is not None:
+                    f, ex = self.block(tail, [st])
+                    return [], [(k2, sx) for k2, sx in ex if k2 == 'return']
                 self.notes.append('goto at line %s not modelled' % s.get('ln'))
                 return [], []
             return [st], []
@@ -947,7 +962,18 @@ class Engine:
         if k == 'ForStmt' and cond is not None and strip(cond).get('k') == 'BinaryOperator' and strip(cond)['op'] in ('<', '!=') and inc is not None:
             c = strip(cond)
             l = strip(c['l'])
-            if l.get('k') == 'DeclRefExpr' and is_incdec(strip(inc)) and strip(strip(inc)['e']).get('id') == l.get('id') and strip(inc)['op'] == '++':
+            # `j++, bank++`: the counter is advanced once, the other operands of the comma advance something else
+            parts = []
+            def flat_comma(e_):
+                e_ = strip(e_)
+                if isinstance(e_, dict) and e_.get('k') == 'BinaryOperator' and e_.get('op') == ',':
+                    flat_comma(e_['l']); flat_comma(e_['r'])
+                else:
+                    parts.append(e_)
+            flat_comma(inc)
+            mine = [p_ for p_ in parts if isinstance(p_, dict) and is_incdec(p_) and strip(p_['e']).get('id') == l.get('id')]
+            others_touch = any(isinstance(y, dict) and y.get('k') == 'DeclRefExpr' and y.get('id') == l.get('id') for p_ in parts if p_ not in mine for y in walk(p_))
+            if l.get('k') == 'DeclRefExpr' and len(mine) == 1 and mine[0]['op'] == '++' and not others_touch:
                 iv = ('v', l.get('id'))
                 start = st.env.get(iv)
                 ids, _ = self._assigned_in(body)
